@@ -7,7 +7,8 @@ from .symx import SymEval, Unsupported, Poly, app, var, num, vkey
 
 
 class Event:
-    def __init__(self, callee, args, loops, guards, site, node):
+    def __init__(self, callee, args, loops, guards, site, node, env=None):
+        self.env = env
         self.callee = callee
         self.args = args
         self.loops = list(loops)
@@ -105,7 +106,10 @@ class Tracer(SymEval):
             loop = ("iter", tuple(nm), desc)
         else:
             val = self.elem_value(desc, hint)
-            loop = ("range", hint, desc[1], desc[2], desc[3]) if desc[0] == "range" else ("iter", hint, desc)
+            d0 = desc
+            while d0[0] == "rev":
+                d0 = d0[1]
+            loop = ("range", hint, d0[1], d0[2], d0[3]) if d0[0] == "range" else ("iter", hint, desc)
         self.bind(pat, val, e2)
         # variables assigned in the loop body are loop-carried: forget their values
         for a in walk(n["body"]):
@@ -126,13 +130,25 @@ class Tracer(SymEval):
                     env[t["name"]] = var(t["name"].split("#")[0] + "@after")
         return ("tuple", [])
 
+    def _forget_assigned(self, body, env, tag):
+        for a in walk(body):
+            if a.get("k") in ("assign", "assignop"):
+                t = strip(a["l"])
+                if t.get("k") == "path" and t.get("res") == "local" and t["name"] in env:
+                    env[t["name"]] = var(t["name"].split("#")[0] + tag)
+
     def e_while(self, n, env):
-        c = self.eval(n["c"], env)
+        e2 = dict(env)
+        self._forget_assigned(n["body"], e2, "@loop")
+        c = self.eval(n["c"], e2)
         self.loops.append(("while", c))
+        self.guards.append((c, True))
         try:
-            self.eval(n["body"], dict(env))
+            self.eval(n["body"], e2)
         finally:
+            self.guards.pop()
             self.loops.pop()
+        self._forget_assigned(n["body"], env, "@after")
         return ("tuple", [])
 
     def e_if(self, n, env):
@@ -212,11 +228,14 @@ class Tracer(SymEval):
     e_assignop = e_assign
 
     def e_loop(self, n, env):
+        e2 = dict(env)
+        self._forget_assigned(n["body"], e2, "@loop")
         self.loops.append(("loop",))
         try:
-            self.eval(n["body"], dict(env))
+            self.eval(n["body"], e2)
         finally:
             self.loops.pop()
+        self._forget_assigned(n["body"], env, "@after")
         return ("tuple", [])
 
     def e_letx(self, n, env):
@@ -234,11 +253,14 @@ class Tracer(SymEval):
     def e_mcall(self, n, env):
         if n["m"] in self.ITER_METHODS and not (n.get("def") or "").startswith(("sparse::", "codes::")) and \
                 ("Iter" in n.get("ty", "") or "iter::" in n.get("ty", "")):
-            return ("iterdesc", self.iter_desc(n, env))
+            d = ("iterdesc", self.iter_desc(n, env))
+            if n["m"] == "iter_mut":
+                self.mutated(n["recv"], env)
+            return d
         return super().e_mcall(n, env)
 
     def call_fn(self, path, inst, args, n, env):
         if path and self.rx.fullmatch(path):
-            self.events.append(Event(path, args, self.loops, self.guards, n.get("sp") if n else None, n))
+            self.events.append(Event(path, args, self.loops, self.guards, n.get("sp") if n else None, n, dict(env) if env else None))
             return app(path, *args)
         return super().call_fn(path, inst, args, n, env)
